@@ -363,8 +363,8 @@ func TestCompilerWAT(t *testing.T) {
 	s.Rule("enumeration: waroot/examples programs built by the compiler (worker op build) → emitted WAT (≈2 MB, ≈190 functions incl. runtime) through the same oracle with the strict reader as reference; one program per shard; non-trivial = every such module (imports, table+elem, data, named locals, start)")
 	sh, n := core.Shard()
 	progs := compilerPrograms
-	if !core.Thorough() && len(progs) > 5 {
-		progs = progs[:5]
+	if !core.Thorough() && len(progs) > 3 {
+		progs = progs[:3]
 	}
 	w := wk.New(wk.Options{})
 	defer w.Close()
